@@ -170,4 +170,262 @@ theorem meetParSubgraphEnd_frame {h h' : TraceHandler} {t : SubgraphType} (hm : 
       obtain ⟨l, r, ht⟩ := rightCompleted_frame h1
       exact ⟨rfl, rfl, l, r, ht⟩
 
+
+/-! ## a uniform description of what a trace-handler transition does to the result trace -/
+
+/-- entries that carry no content id: the placeholders / final forms of `par` and `fold` -/
+def Neutral : ExecutedState → Prop
+  | .par _ _ => True
+  | .fold _ => True
+  | _ => False
+
+/-- positions reserved by the open pars and folds (their `StateInserter`s) -/
+def inserters (h : TraceHandler) : List Nat := h.parStack.map (·.inserterPos) ++ h.foldMap.map (·.2.inserterPos)
+
+/-- what a transition may do: nothing, reserve a new placeholder at the end, or fill a reserved position
+with a neutral entry; the set of reserved positions only changes accordingly -/
+inductive TraceStep (h h' : TraceHandler) : Prop where
+  | same (ht : h'.keeper.resultTrace = h.keeper.resultTrace) (hi : ∀ p ∈ inserters h', p ∈ inserters h)
+  | reserve (ht : h'.keeper.resultTrace = h.keeper.resultTrace ++ [.par 0 0])
+      (hi : ∀ p ∈ inserters h', p ∈ inserters h ∨ p = h.keeper.resultTrace.length)
+  | fill (p : Nat) (st : ExecutedState) (hp : p ∈ inserters h) (hn : Neutral st)
+      (ht : h'.keeper.resultTrace = h.keeper.resultTrace.set p st) (hi : ∀ q ∈ inserters h', q ∈ inserters h)
+
+theorem mem_inserters_par {h : TraceHandler} {f : ParFSM} (hf : f ∈ h.parStack) : f.inserterPos ∈ inserters h :=
+  List.mem_append_left _ (List.mem_map.mpr ⟨f, hf, rfl⟩)
+
+theorem step_meetCallStart {h h' : TraceHandler} {m : MergerCallResult} (hm : h.meetCallStart = .ok (m, h')) : TraceStep h h' := by
+  unfold TraceHandler.meetCallStart at hm
+  obtain ⟨⟨r, k⟩, h1, h2⟩ := res_bind_ok' hm
+  cases h2
+  exact .same (tryMergeNextStateAsCall_trace h1) (fun p hp => hp)
+
+theorem prepareApMergeResult_trace {g : List Nat} {scheme : PreparationScheme} {k k' : DataKeeper} {m : MergerApResult}
+    (h : prepareApMergeResult g scheme k = .ok (m, k')) : k'.resultTrace = k.resultTrace := by
+  unfold prepareApMergeResult at h
+  obtain ⟨k1, h1, h2⟩ := res_bind_ok' h
+  split at h2
+  · cases h2; exact preparePositionsMapping_trace h1
+  · cases h2
+
+theorem step_meetApStart {h h' : TraceHandler} {m : MergerApResult} (hm : h.meetApStart = .ok (m, h')) : TraceStep h h' := by
+  unfold TraceHandler.meetApStart at hm
+  obtain ⟨⟨r, k⟩, h1, h2⟩ := res_bind_ok' hm
+  cases h2
+  refine .same ?_ (fun p hp => hp)
+  unfold tryMergeNextStateAsAp at h1
+  simp only at h1
+  split at h1
+  · exact (prepareApMergeResult_trace h1).trans (nextStates_trace _)
+  · exact (prepareApMergeResult_trace h1).trans (nextStates_trace _)
+  · exact (prepareApMergeResult_trace h1).trans (nextStates_trace _)
+  · cases h1; rfl
+  · cases h1
+
+theorem step_meetCanonStart {h h' : TraceHandler} {m : MergerCanonResult} (hm : h.meetCanonStart = .ok (m, h')) : TraceStep h h' := by
+  unfold TraceHandler.meetCanonStart at hm
+  obtain ⟨⟨r, k⟩, h1, h2⟩ := res_bind_ok' hm
+  cases h2
+  refine .same ?_ (fun p hp => hp)
+  unfold tryMergeNextStateAsCanon at h1
+  simp only at h1
+  split at h1
+  · split at h1
+    · cases h1; rfl
+    · cases h1
+    · cases h1
+  · cases h1; rfl
+  · cases h1; rfl
+  · cases h1; rfl
+  · cases h1
+
+theorem step_meetParStart {h h' : TraceHandler} (hm : h.meetParStart = .ok h') : TraceStep h h' := by
+  obtain ⟨ht, f, hp, hpos⟩ := meetParStart_frame hm
+  have hfm : h'.foldMap = h.foldMap := by
+    unfold TraceHandler.meetParStart at hm
+    obtain ⟨⟨pp, cp, k⟩, _, h2⟩ := res_bind_ok' hm
+    obtain ⟨⟨f', k2⟩, _, h4⟩ := res_bind_ok' h2
+    cases h4; rfl
+  refine .reserve ht ?_
+  intro p hp'
+  unfold inserters at hp' ⊢
+  rw [hp, hfm] at hp'
+  simp only [List.map_cons, List.cons_append, List.mem_cons] at hp'
+  rcases hp' with rfl | hp'
+  · exact Or.inr hpos
+  · exact Or.inl hp'
+
+theorem step_meetParSubgraphEnd {h h' : TraceHandler} {t : SubgraphType} (hm : h.meetParSubgraphEnd t = .ok h') : TraceStep h h' := by
+  have hfm : h'.foldMap = h.foldMap := by
+    unfold TraceHandler.meetParSubgraphEnd at hm
+    split at hm
+    · cases hm
+    · cases t
+      · simp only at hm; obtain ⟨⟨f', k⟩, _, h2⟩ := res_bind_ok' hm; cases h2; rfl
+      · simp only at hm; obtain ⟨k, _, h2⟩ := res_bind_ok' hm; cases h2; rfl
+  obtain ⟨f, rest, hs, hcase⟩ := meetParSubgraphEnd_frame hm
+  rcases hcase with ⟨_, ht, f', hp, hpos⟩ | ⟨_, hp, l, r, ht⟩
+  · refine .same ht ?_
+    intro p hp'
+    unfold inserters at hp' ⊢
+    rw [hp, hfm] at hp'; rw [hs]
+    simpa [hpos] using hp'
+  · refine .fill f.inserterPos (.par l r) (mem_inserters_par (by rw [hs]; exact List.mem_cons_self)) trivial ht ?_
+    intro p hp'
+    unfold inserters at hp' ⊢
+    rw [hp, hfm] at hp'; rw [hs]
+    simp only [List.map_cons, List.cons_append, List.mem_cons]
+    exact Or.inr hp'
+
+/-! ### fold transitions -/
+
+theorem applyFoldLore_trace {k k' : DataKeeper} {pl cl : Option ResolvedSubTraceDescs} {w : ByNextPosition}
+    (h : applyFoldLore k pl cl w = .ok k') : k'.resultTrace = k.resultTrace := by
+  unfold applyFoldLore at h
+  obtain ⟨ps, _, h2⟩ := res_bind_ok' h
+  obtain ⟨cs, _, h3⟩ := res_bind_ok' h2
+  cases h3; rfl
+
+theorem setFold_inserters_sub (h : TraceHandler) (id : Nat) (f g : FoldFSM) (hg : h.foldMap.find? (fun x => x.1 == id) = some (id, g))
+    (hpos : f.inserterPos = g.inserterPos) : ∀ p ∈ inserters (h.setFold id f), p ∈ inserters h := by
+  intro p hp
+  unfold inserters TraceHandler.setFold at hp
+  unfold inserters
+  simp only [List.mem_append, List.mem_map] at hp ⊢
+  rcases hp with hp | ⟨x, hx, rfl⟩
+  · exact Or.inl hp
+  · right
+    obtain ⟨y, hy, rfl⟩ := hx
+    obtain ⟨i, g'⟩ := y
+    by_cases hi : (i == id) = true
+    · simp only [hi, if_true]
+      have hm := List.mem_of_find?_eq_some hg
+      exact ⟨(id, g), hm, by simp [hpos]⟩
+    · simp only [hi]
+      exact ⟨(i, g'), hy, rfl⟩
+
+theorem foldMut_find {h : TraceHandler} {id : Nat} {f : FoldFSM} (hf : h.foldMut id = .ok f) :
+    ∃ j, h.foldMap.find? (fun x => x.1 == id) = some (j, f) ∧ j = id := by
+  unfold TraceHandler.foldMut at hf
+  split at hf
+  · rename_i j g hfind
+    cases hf
+    have := List.find?_some hfind
+    exact ⟨j, hfind, by simpa using this⟩
+  · cases hf
+
+theorem step_meetFoldStart {h h' : TraceHandler} {id : Nat} (hm : h.meetFoldStart id = .ok h') : TraceStep h h' := by
+  unfold TraceHandler.meetFoldStart at hm
+  obtain ⟨⟨pf, cf, k⟩, h1, h2⟩ := res_bind_ok' hm
+  obtain ⟨⟨f, k2⟩, h3, h4⟩ := res_bind_ok' h2
+  cases h4
+  have t1 : k.resultTrace = h.keeper.resultTrace := by
+    unfold tryMergeNextStateAsFold at h1
+    simp only at h1
+    split at h1
+    · obtain ⟨a, _, h5⟩ := res_bind_ok' h1
+      obtain ⟨b, _, h6⟩ := res_bind_ok' h5
+      cases h6; rfl
+    · obtain ⟨a, _, h5⟩ := res_bind_ok' h1
+      cases h5; rfl
+    · obtain ⟨a, _, h5⟩ := res_bind_ok' h1
+      cases h5; rfl
+    · cases h1; rfl
+    · cases h1
+  unfold FoldFSM.fromFoldStart at h3
+  simp only at h3
+  obtain ⟨ps, _, h5⟩ := res_bind_ok' h3
+  obtain ⟨cs, _, h6⟩ := res_bind_ok' h5
+  cases h6
+  refine .reserve (by simp [t1]) ?_
+  intro p hp
+  unfold inserters at hp ⊢
+  simp only [List.map_cons, List.mem_append, List.mem_cons, List.mem_map] at hp ⊢
+  rcases hp with hp | hp | ⟨x, hx, rfl⟩
+  · exact Or.inl (Or.inl hp)
+  · right; rw [hp]; simp [DataKeeper.resultTraceNextPos, t1]
+  · exact Or.inl (Or.inr ⟨x, (List.mem_filter.mp hx).1, rfl⟩)
+
+theorem step_foldUpdate {h h' : TraceHandler} {id : Nat} {f f' : FoldFSM} {k' : DataKeeper}
+    (hf : h.foldMut id = .ok f) (hh : h' = ({ h with keeper := k' }).setFold id f')
+    (ht : k'.resultTrace = h.keeper.resultTrace) (hpos : f'.inserterPos = f.inserterPos) : TraceStep h h' := by
+  subst hh
+  obtain ⟨j, hfind, rfl⟩ := foldMut_find hf
+  refine .same ht ?_
+  intro p hp
+  have := setFold_inserters_sub { h with keeper := k' } j f' f hfind hpos p hp
+  exact this
+
+theorem step_meetIterationStart {h h' : TraceHandler} {id pos : Nat} (hm : h.meetIterationStart id pos = .ok h') : TraceStep h h' := by
+  unfold TraceHandler.meetIterationStart at hm
+  obtain ⟨f, hf, h2⟩ := res_bind_ok' hm
+  obtain ⟨⟨f', k⟩, h3, h4⟩ := res_bind_ok' h2
+  cases h4
+  unfold FoldFSM.meetIterationStart at h3
+  simp only at h3
+  obtain ⟨k2, h5, h6⟩ := res_bind_ok' h3
+  cases h6
+  exact step_foldUpdate hf rfl (applyFoldLore_trace h5) rfl
+
+theorem setCtor_pos (f : FoldFSM) (i : Nat) (c : SubTraceLoreCtor) : (f.setCtor i c).inserterPos = f.inserterPos := rfl
+
+theorem step_meetIterationEnd {h h' : TraceHandler} {id : Nat} (hm : h.meetIterationEnd id = .ok h') : TraceStep h h' := by
+  unfold TraceHandler.meetIterationEnd at hm
+  obtain ⟨f, hf, h2⟩ := res_bind_ok' hm
+  obtain ⟨f', h3, h4⟩ := res_bind_ok' h2
+  cases h4
+  unfold FoldFSM.meetIterationEnd at h3
+  obtain ⟨⟨i, d⟩, _, h5⟩ := res_bind_ok' h3
+  cases h5
+  exact step_foldUpdate (k' := h.keeper) hf rfl rfl rfl
+
+theorem step_meetGenerationEnd {h h' : TraceHandler} {id : Nat} (hm : h.meetGenerationEnd id = .ok h') : TraceStep h h' := by
+  unfold TraceHandler.meetGenerationEnd at hm
+  obtain ⟨f, hf, h2⟩ := res_bind_ok' hm
+  obtain ⟨f', h3, h4⟩ := res_bind_ok' h2
+  cases h4
+  unfold FoldFSM.meetGenerationEnd at h3
+  simp only at h3
+  obtain ⟨lore, _, h5⟩ := res_bind_ok' h3
+  cases h5
+  exact step_foldUpdate (k' := h.keeper) hf rfl rfl rfl
+
+theorem step_meetBackIterator {h h' : TraceHandler} {id : Nat} (hm : h.meetBackIterator id = .ok h') : TraceStep h h' := by
+  unfold TraceHandler.meetBackIterator at hm
+  obtain ⟨f, hf, h2⟩ := res_bind_ok' hm
+  obtain ⟨⟨f', k⟩, h3, h4⟩ := res_bind_ok' h2
+  cases h4
+  unfold FoldFSM.meetBackIterator at h3
+  obtain ⟨⟨i, d⟩, _, h5⟩ := res_bind_ok' h3
+  simp only at h5
+  split at h5
+  · obtain ⟨k2, h6, h7⟩ := res_bind_ok' h5
+    cases h7
+    exact step_foldUpdate hf rfl (applyFoldLore_trace h6) rfl
+  · obtain ⟨pos, _, h6⟩ := res_bind_ok' h5
+    obtain ⟨⟨j, d2⟩, _, h7⟩ := res_bind_ok' h6
+    simp only at h7
+    obtain ⟨k2, h8, h9⟩ := res_bind_ok' h7
+    cases h9
+    exact step_foldUpdate hf rfl (applyFoldLore_trace h8) rfl
+
+theorem step_meetFoldEnd {h h' : TraceHandler} {id : Nat} (hm : h.meetFoldEnd id = .ok h') : TraceStep h h' := by
+  unfold TraceHandler.meetFoldEnd at hm
+  obtain ⟨f, hf, h2⟩ := res_bind_ok' hm
+  obtain ⟨k, h3, h4⟩ := res_bind_ok' h2
+  cases h4
+  obtain ⟨j, hfind, rfl⟩ := foldMut_find hf
+  unfold FoldFSM.meetFoldEnd at h3
+  simp only at h3
+  have ht := updateCtxStates_trace h3
+  refine .fill f.inserterPos (.fold f.resultLore) ?_ trivial (by rw [ht]; rfl) ?_
+  · unfold inserters
+    exact List.mem_append_right _ (List.mem_map.mpr ⟨(j, f), List.mem_of_find?_eq_some hfind, rfl⟩)
+  · intro p hp
+    unfold inserters at hp ⊢
+    simp only [List.mem_append, List.mem_map] at hp ⊢
+    rcases hp with hp | ⟨x, hx, rfl⟩
+    · exact Or.inl hp
+    · exact Or.inr ⟨x, (List.mem_filter.mp hx).1, rfl⟩
+
 end AquaProps
